@@ -54,7 +54,8 @@ theorem replayOne_inv (t : State) (b : Block) (full : Bool) (h : Inv t)
     (hv : validBlock (utxoRev t.chainRev) (t.chainRev.length + 1) b)
     (hj : t.journal b.id = some (journalOf (utxoRev t.chainRev) (t.chainRev.length + 1) b))
     (hid : b.id ∉ t.chainRev.map (·.id)) (hnz : b.id ≠ 0) :
-    ∃ t', replayOne t b full = some t' ∧ Inv t' ∧ t'.chainRev = b :: t.chainRev ∧ t'.journal = t.journal := by
+    ∃ t', replayOne t b full = some t' ∧ Inv t' ∧ t'.chainRev = b :: t.chainRev ∧ t'.journal = t.journal ∧
+      t'.totalTxns = t.totalTxns := by
   unfold replayOne
   rw [← h.abs_eq] at hv
   obtain ⟨c1, hct, hc1, habs1⟩ := connectTransactions_spec t.db (t.chainRev.length + 1) t.cache b h.cinv hv
@@ -74,15 +75,15 @@ theorem replayOne_inv (t : State) (b : Block) (full : Bool) (h : Inv t)
       · exact hnz
       · exact h.nonzero x hx
   have hfl := flushAt_inv _ b.id .ifNeeded full false hs1 rfl
-  exact ⟨_, rfl, hfl.1, hfl.2.1, hfl.2.2⟩
+  exact ⟨_, rfl, hfl.1, hfl.2.1, hfl.2.2, flushAt_totalTxns _ _ _ _ _⟩
 
 theorem replay_inv (bs : List Block) : ∀ (t : State) (fulls : List Bool), Inv t →
     JournalOk t.journal (bs.reverse ++ t.chainRev) → ChainValid (bs.reverse ++ t.chainRev) →
     ((bs.reverse ++ t.chainRev).map (·.id)).Nodup → (∀ b ∈ bs.reverse ++ t.chainRev, b.id ≠ 0) →
     ∃ t', replay t bs fulls = some t' ∧ Inv t' ∧ t'.chainRev = bs.reverse ++ t.chainRev ∧
-      t'.journal = t.journal := by
+      t'.journal = t.journal ∧ t'.totalTxns = t.totalTxns := by
   induction bs with
-  | nil => intro t fulls h _ _ _ _; exact ⟨t, rfl, h, rfl, rfl⟩
+  | nil => intro t fulls h _ _ _ _; exact ⟨t, rfl, h, rfl, rfl, rfl⟩
   | cons b bs ih =>
     intro t fulls h hj hv hnd hnz
     have heq : (b :: bs).reverse ++ t.chainRev = bs.reverse ++ (b :: t.chainRev) := by simp
@@ -91,12 +92,12 @@ theorem replay_inv (bs : List Block) : ∀ (t : State) (fulls : List Bool), Inv 
     have hvb := chainValid_suffix _ _ hv
     have hndb := nodup_suffix _ _ hnd
     have hid : b.id ∉ t.chainRev.map (·.id) := (List.nodup_cons.mp hndb).1
-    obtain ⟨t1, h1, hi1, hc1, hj1⟩ := replayOne_inv t b (fulls.headD false) h hvb.1 hjb.1 hid
+    obtain ⟨t1, h1, hi1, hc1, hj1, htt1⟩ := replayOne_inv t b (fulls.headD false) h hvb.1 hjb.1 hid
       (hnz b (by simp))
     rw [← hc1, ← hj1] at hj
     rw [← hc1] at hv hnd hnz
-    obtain ⟨t2, h2, hi2, hc2, hj2⟩ := ih t1 fulls.tail hi1 hj hv hnd hnz
-    refine ⟨t2, by simp only [replay, h1, h2], hi2, ?_, by rw [hj2, hj1]⟩
+    obtain ⟨t2, h2, hi2, hc2, hj2, htt2⟩ := ih t1 fulls.tail hi1 hj hv hnd hnz
+    refine ⟨t2, by simp only [replay, h1, h2], hi2, ?_, by rw [hj2, hj1], by rw [htt2, htt1]⟩
     rw [hc2, hc1, heq]
 
 /-- The state a new process starts from satisfies the invariant for the chain at the marker. -/
@@ -117,22 +118,24 @@ theorem crashed_inv (s : State) (h : PInv s) (above below : List Block)
 threshold outcome after every replayed block) re-establishes the full invariant on the same
 chain, from the persistent part of the invariant alone. -/
 theorem restart_inv (s : State) (fulls : List Bool) (h : PInv s) :
-    ∃ s', restart s fulls = some s' ∧ Inv s' ∧ s'.chainRev = s.chainRev ∧ s'.journal = s.journal := by
+    ∃ s', restart s fulls = some s' ∧ Inv s' ∧ s'.chainRev = s.chainRev ∧ s'.journal = s.journal ∧
+      s'.totalTxns = s.totalTxns := by
   obtain ⟨above, below, hsplit, hmk, hdb⟩ := h.persist
   obtain ⟨hcr, hci⟩ := crashed_inv s h above below hsplit hmk hdb
   unfold restart
   rw [hcr]
   have hnd := h.nodup; have hnz := h.nonzero; have hj := h.journal; have hv := h.valid
   rw [hsplit] at hnd hnz hj hv
-  obtain ⟨t', h1, hi, hc, hjj⟩ := replay_inv above.reverse _ fulls hci
+  obtain ⟨t', h1, hi, hc, hjj, htt⟩ := replay_inv above.reverse _ fulls hci
     (by simpa using hj) (by simpa using hv) (by simpa using hnd) (by simpa using hnz)
-  refine ⟨t', h1, hi, ?_, hjj⟩
+  refine ⟨t', h1, hi, ?_, hjj, htt⟩
   rw [hc, hsplit]; simp
 
 /-- A start-up that is interrupted (or dies) after `n` replayed blocks keeps the persistent part
 of the invariant: the bucket is the fold up to the NEW marker. -/
 theorem restartAborted_pinv (s : State) (n : Nat) (fulls : List Bool) (h : PInv s) :
-    ∃ s', restartAborted s n fulls = some s' ∧ PInv s' ∧ s'.chainRev = s.chainRev := by
+    ∃ s', restartAborted s n fulls = some s' ∧ PInv s' ∧ s'.chainRev = s.chainRev ∧
+      s'.totalTxns = s.totalTxns := by
   obtain ⟨above, below, hsplit, hmk, hdb⟩ := h.persist
   obtain ⟨hcr, hci⟩ := crashed_inv s h above below hsplit hmk hdb
   unfold restartAborted
@@ -144,31 +147,33 @@ theorem restartAborted_pinv (s : State) (n : Nat) (fulls : List Bool) (h : PInv 
   have hfull : s.chainRev = (above.reverse.drop n).reverse ++ ((above.reverse.take n).reverse ++ below) := by
     rw [hsplit, ← List.append_assoc, ← habove]
   rw [hfull] at hnd hnz hj hv
-  obtain ⟨t', h1, hi, hc, hjj⟩ := replay_inv (above.reverse.take n) _ fulls hci
+  obtain ⟨t', h1, hi, hc, hjj, htt⟩ := replay_inv (above.reverse.take n) _ fulls hci
     (journalOk_suffix _ _ _ hj) (chainValid_suffix _ _ hv) (nodup_suffix _ _ hnd)
     (fun b hb => hnz b (List.mem_append_right _ hb))
   simp only [h1]
   obtain ⟨a', b', hs', hm', hd'⟩ := hi.persist
-  refine ⟨_, rfl, ⟨⟨(above.reverse.drop n).reverse ++ a', b', ?_, hm', hd'⟩, ?_, h.valid, h.nodup, h.nonzero⟩, rfl⟩
+  refine ⟨_, rfl, ⟨⟨(above.reverse.drop n).reverse ++ a', b', ?_, hm', hd'⟩, ?_, h.valid, h.nodup, h.nonzero⟩, rfl, htt⟩
   · show s.chainRev = _
     rw [hfull, List.append_assoc, ← hs', hc]
   · show JournalOk t'.journal s.chainRev
     rw [hjj]; exact h.journal
 
 theorem restartsAborted_pinv (aborts : List (Nat × List Bool)) : ∀ (s : State), PInv s →
-    ∃ s', restartsAborted s aborts = some s' ∧ PInv s' ∧ s'.chainRev = s.chainRev := by
+    ∃ s', restartsAborted s aborts = some s' ∧ PInv s' ∧ s'.chainRev = s.chainRev ∧
+      s'.totalTxns = s.totalTxns := by
   induction aborts with
-  | nil => intro s h; exact ⟨s, rfl, h, rfl⟩
+  | nil => intro s h; exact ⟨s, rfl, h, rfl, rfl⟩
   | cons a as ih =>
     intro s h
-    obtain ⟨s1, h1, hp1, hc1⟩ := restartAborted_pinv s a.1 a.2 h
-    obtain ⟨s2, h2, hp2, hc2⟩ := ih s1 hp1
-    exact ⟨s2, by simp only [restartsAborted, h1, h2], hp2, by rw [hc2, hc1]⟩
+    obtain ⟨s1, h1, hp1, hc1, ht1⟩ := restartAborted_pinv s a.1 a.2 h
+    obtain ⟨s2, h2, hp2, hc2, ht2⟩ := ih s1 hp1
+    exact ⟨s2, by simp only [restartsAborted, h1, h2], hp2, by rw [hc2, hc1], by rw [ht2, ht1]⟩
 
 theorem restart_op_inv (s : State) (aborts : List (Nat × List Bool)) (fulls : List Bool) (h : Inv s) :
-    ∃ s', step s (.restart aborts fulls) = some s' ∧ Inv s' ∧ s'.chainRev = s.chainRev := by
-  obtain ⟨s1, h1, hp1, hc1⟩ := restartsAborted_pinv aborts s h.pinv
-  obtain ⟨s2, h2, hi2, hc2, _⟩ := restart_inv s1 fulls hp1
-  exact ⟨s2, by simp only [step, h1, h2], hi2, by rw [hc2, hc1]⟩
+    ∃ s', step s (.restart aborts fulls) = some s' ∧ Inv s' ∧ s'.chainRev = s.chainRev ∧
+      s'.totalTxns = s.totalTxns := by
+  obtain ⟨s1, h1, hp1, hc1, ht1⟩ := restartsAborted_pinv aborts s h.pinv
+  obtain ⟨s2, h2, hi2, hc2, _, ht2⟩ := restart_inv s1 fulls hp1
+  exact ⟨s2, by simp only [step, h1, h2], hi2, by rw [hc2, hc1], by rw [ht2, ht1]⟩
 
 end BV.C03.Lemmas
